@@ -31,7 +31,7 @@ type c20FirstCase struct {
 func c20FirstRun(c *c20FirstCase) error {
 	runtime.GOMAXPROCS(c.Procs)
 	srv := httptest.NewServer(http.HandlerFunc(webstack.SnapshotHandler))
-	defer srv.Close()
+	defer closeServer(srv)
 	client := &http.Client{}
 	start := make(chan struct{})
 	errs := make([]error, len(c.Reqs))
